@@ -122,6 +122,8 @@ pub struct PropertyDef {
     /// other builds of the simulator in which (a prefix of) the same runs is repeated:
     /// (build name, runs quick, runs thorough, compare per-run digests with this build)
     pub sub_builds: &'static [(&'static str, u64, u64, bool)],
+    /// stack of the case thread (a host's main thread typically has 8 MiB)
+    pub stack_mb: usize,
 }
 
 pub fn exec_on_thread(def: &'static PropertyDef, case: &Case) -> CaseResult {
@@ -130,7 +132,7 @@ pub fn exec_on_thread(def: &'static PropertyDef, case: &Case) -> CaseResult {
         c.program.reanalyze();
     }
     let exec = def.execute;
-    let r = run_case_thread(case.hash_seed, case.story_seed, case.fuel, def.timeout_s, move || {
+    let r = run_case_thread(case.hash_seed, case.story_seed, case.fuel, def.timeout_s, def.stack_mb, move || {
         let mut r = exec(&c);
         r.stats.probes();
         r
@@ -484,6 +486,46 @@ pub fn shrink(def: &'static PropertyDef, case: &Case, v: &Violation, budget: usi
             chunk /= 2;
         } else if !progress {
             break;
+        }
+    }
+    // property-specific fault lists kept in params
+    for key in ["damages", "faults"] {
+        let n0 = best.params.get(key).and_then(|d| d.as_array()).map(|a| a.len()).unwrap_or(0);
+        if n0 == 0 {
+            continue;
+        }
+        let mut chunk = (n0 / 2).max(1);
+        loop {
+            let mut i = 0;
+            let mut progress = false;
+            loop {
+                let len = best.params[key].as_array().map(|a| a.len()).unwrap_or(0);
+                if i >= len || tried >= budget || !time_ok(&t0) {
+                    break;
+                }
+                let mut c = best.clone();
+                if let Some(a) = c.params[key].as_array_mut() {
+                    let end = (i + chunk).min(a.len());
+                    a.drain(i..end);
+                }
+                if let Some(nv) = run(&c, &mut tried) {
+                    best = c;
+                    bestv = nv;
+                    progress = true;
+                } else {
+                    i += chunk;
+                }
+            }
+            if chunk == 1 {
+                if !progress {
+                    break;
+                }
+            } else {
+                chunk /= 2;
+            }
+            if tried >= budget || !time_ok(&t0) {
+                break;
+            }
         }
     }
     // host configuration
